@@ -67,7 +67,7 @@ pub struct Link {
 pub fn pos_strategy() -> impl Strategy<Value = Pos> {
     (
         prop_oneof![6 => any::<u16>(), 1 => Just(0u16), 1 => Just(u16::MAX)],
-        prop_oneof![30 => Just(0i8), 1 => Just(1i8), 1 => Just(2i8), 1 => Just(3i8), 1 => Just(-1i8), 1 => Just(-3i8)],
+        prop_oneof![60 => Just(0i8), 2 => Just(1i8), 2 => Just(2i8), 2 => Just(3i8), 2 => Just(-1i8), 2 => Just(-3i8), 1 => Just(100i8), 1 => Just(101i8), 1 => Just(102i8), 1 => Just(103i8), 1 => Just(-100i8), 1 => Just(-101i8)],
         any::<bool>(),
     )
         .prop_map(|(idx, out, ea)| Pos { idx, out, ea })
@@ -94,10 +94,10 @@ pub enum Cur {
 
 impl Cur {
     /// position denoted in a text of `len` codepoints (may be negative or beyond len)
-    pub fn pos(&self, len: usize) -> i64 {
+    pub fn pos(&self, len: usize) -> i128 {
         match self {
-            Cur::B(x) => *x as i64,
-            Cur::E(x) => len as i64 + *x,
+            Cur::B(x) => *x as i128,
+            Cur::E(x) => len as i128 + *x as i128,
         }
     }
     pub fn to_stam(&self) -> Cursor {
@@ -139,6 +139,20 @@ pub const MODES: [(OffsetMode, &str); 4] = [
     (OffsetMode::EndEnd, "EE"),
 ];
 
+/// extreme cursor values (`out` = +-100 ..): near the limits of the integer types, where offset arithmetic overflows
+fn extreme(p: &Pos) -> Option<Cur> {
+    let k = (p.idx % 4) as usize;
+    match p.out {
+        100 => Some(Cur::B(usize::MAX - k)),
+        101 => Some(Cur::B((isize::MAX as usize) - k)),
+        102 => Some(Cur::B((isize::MAX as usize) + 1 + k)),
+        103 => Some(Cur::B((u32::MAX as usize) + k)),
+        -100 => Some(Cur::E(i64::MIN + k as i64)),
+        -101 => Some(Cur::E(-(u32::MAX as i64) - k as i64)),
+        _ => None,
+    }
+}
+
 fn conceptual(p: &Pos, len: usize) -> i64 {
     if p.out == 0 {
         pick(p.idx, len + 1) as i64
@@ -173,13 +187,15 @@ pub fn resolve_link(link: &Link, len: usize) -> (Cur, Cur) {
     } else if link.sorted && pb > pe {
         std::mem::swap(&mut pb, &mut pe);
     }
-    (make_cur(pb, link.begin.ea, len), make_cur(pe, link.end.ea, len))
+    let cb = extreme(&link.begin).unwrap_or_else(|| make_cur(pb, link.begin.ea, len));
+    let ce = if link.zw && extreme(&link.begin).is_some() { cb } else { extreme(&link.end).unwrap_or_else(|| make_cur(pe, link.end.ea, len)) };
+    (cb, ce)
 }
 
 /// the range (relative to the parent) an offset denotes, if it is one: 0 <= b <= e <= len
 pub fn oracle_range(b: &Cur, e: &Cur, len: usize) -> Option<(usize, usize)> {
     let (pb, pe) = (b.pos(len), e.pos(len));
-    if 0 <= pb && pb <= pe && pe <= len as i64 {
+    if 0 <= pb && pb <= pe && pe <= len as i128 {
         Some((pb as usize, pe as usize))
     } else {
         None
@@ -191,11 +207,11 @@ pub fn invalid_class(b: &Cur, e: &Cur, len: usize) -> &'static str {
     let (pb, pe) = (b.pos(len), e.pos(len));
     if pb < 0 || pe < 0 {
         "before-begin"
-    } else if pb > len as i64 && pe > len as i64 {
+    } else if pb > len as i128 && pe > len as i128 {
         "both-beyond-end"
-    } else if pb > len as i64 {
+    } else if pb > len as i128 {
         "begin-beyond-end"
-    } else if pe > len as i64 {
+    } else if pe > len as i128 {
         "end-beyond-end"
     } else {
         "inverted"
